@@ -113,7 +113,8 @@ fn dns_id(s: &str) -> Option<u64> {
 }
 
 /// Canonical components only (the same rule as `dec_comp` in Glue.v).
-fn protocol_of(w: &World, c: Comp) -> Option<Protocol<'static>> {
+/// Abstract component -> real multiaddr protocol (shared with the C05 harness).
+pub(crate) fn protocol_of_peers(peers: &[PeerId], c: (u64, u64)) -> Option<Protocol<'static>> {
     let (tag, arg) = c;
     let small = arg < 65536;
     Some(match tag {
@@ -136,7 +137,7 @@ fn protocol_of(w: &World, c: Comp) -> Option<Protocol<'static>> {
         7 if arg == 0 => Protocol::Ws(Cow::Borrowed("/")),
         8 if arg == 0 => Protocol::Wss(Cow::Borrowed("/")),
         9 if arg == 0 => Protocol::QuicV1,
-        10 if arg < NPEERS => Protocol::P2p(w.peers[arg as usize].into()),
+        10 if (arg as usize) < peers.len() => Protocol::P2p(peers[arg as usize].into()),
         11 if arg < NOTHER => match arg {
             0 => Protocol::Quic,
             1 => Protocol::Http,
@@ -149,6 +150,10 @@ fn protocol_of(w: &World, c: Comp) -> Option<Protocol<'static>> {
         },
         _ => return None,
     })
+}
+
+fn protocol_of(w: &World, c: Comp) -> Option<Protocol<'static>> {
+    protocol_of_peers(&w.peers, c)
 }
 
 fn real_of(w: &World, a: &Abs) -> Option<Multiaddr> {
